@@ -350,8 +350,9 @@ def rule_fatlen(ctx, rep):
                     continue
                 n += 1
                 ik = "%s/fat-pointer-length" % b["key"]
-                len_e = _nobb(symx.expr(F, B, t["args"][1]))
-                ptr_e = _nobb(symx.expr(F, B, t["args"][0]))
+                _priv = lambda k: not balance.is_api(F, F.body(k))  # private accessors (`fn inner(&self) -> &ArcInner<..>`) are part of the expression
+                len_e = _nobb(symx.normalize_calls(F, symx.expr(F, B, t["args"][1]), _priv))
+                ptr_e = _nobb(symx.normalize_calls(F, symx.expr(F, B, t["args"][0]), _priv))
                 data_name = F.data_field[1]
                 ok = False
                 why = "the length of the fabricated fat block pointer is %s" % symx.show(symx.expr(F, B, t["args"][1]))
